@@ -59,6 +59,15 @@ def check_int(ctx, n):
         ctx.violation({'fn': 'roundtrip', 'clause': 'bytes_to_int(int_to_bytes(n)) == n'},
                       f'n={n} -> {b.hex()} -> {back}')
     ctx.outcome('int:len%d' % min(len(b), 9) if len(b) < 9 else 'int:long')
+    if n >= 0:
+        # the (deprecated) unsigned encoder: big-endian, decodes unsigned to n
+        try:
+            u = F.uint_to_bytes(n)
+            ctx.trans()
+            if type(u) is not bytes or len(u) == 0 or int.from_bytes(u, 'big') != n:
+                ctx.violation({'fn': 'uint_to_bytes', 'clause': 'unsigned big-endian value'}, f'n={n} -> {u!r}')
+        except BaseException as e:
+            ctx.violation({'fn': 'uint_to_bytes', 'clause': 'raises'}, f'n={n}: {e!r}')
 
 
 def check_decode(ctx, b):
